@@ -56,6 +56,19 @@ Theorem C10_reflected : forall s (L R : R),
 Proof. exact flip_meaning. Qed.
 Print Assumptions C10_reflected.
 
+(* the list handed to the solver: one dict per written relation, position by position, and a point passes all dicts
+   exactly when every written relation holds at it (nothing skipped, merged or re-ordered) *)
+Theorem C10_handover_one_per_relation : forall cs i c, nth_error cs i = Some c ->
+  List.length (scipy_constraints cs) = List.length cs /\
+  nth_error (scipy_constraints cs) i = Some (dict_type (snd c), c).
+Proof. intros cs i c H. split; [exact (handover_length cs) | exact (handover_nth cs i c H)]. Qed.
+Print Assumptions C10_handover_one_per_relation.
+
+Theorem C10_handover_feasible_set : forall rho penv cs,
+  List.Forall (dict_accepts rho penv) (scipy_constraints cs) <-> List.Forall (relation_holds rho penv) cs.
+Proof. exact handover_feasible_iff. Qed.
+Print Assumptions C10_handover_feasible_set.
+
 Example C10_example : violationR Le (3 - 1) = 2 /\ violationR Ge (3 - 1) = 0 /\ violationR Eq (1 - 3) = 2.
 Proof. exact nonvacuous. Qed.
 Print Assumptions C10_example.
